@@ -695,6 +695,7 @@ class Cfg:
     max_mode: int = 12
     names: Optional[list] = None     # restricted pool for variable / loop / parameter names
     whole_array_odds: int = 3
+    array_weight: int = 1
 
 
 @st.composite
@@ -722,7 +723,7 @@ def script(draw, cfg=Cfg()):
     for _ in range(n):
         kinds = ["stmt"] * cfg.stmt_weight + ["scalar"]
         if cfg.arrays:
-            kinds.append("array")
+            kinds.extend(["array"] * cfg.array_weight)
         if cfg.loops:
             kinds.append("loop")
         k = draw(st.sampled_from(kinds))
